@@ -334,31 +334,34 @@ Definition getattr (obj : value) (name : str) : gres value :=
   | _ => Err EAttribute
   end.
 
+(* one iteration of `for var in meta.get_attribute_vars()` *)
+Definition attr_step (c : conv) (u : universe) (obj : value) (ignore_optionals : bool) (var : xvar) : gres (list wevent) :=
+  if v_is KAttribute var then
+    v <- getattr obj (v_name var) ;;
+    match v with
+    | VNone => Ok []
+    | _ =>
+        if is_array v && negb (py_truthy v) then Ok []
+        else
+          skip <- (if ignore_optionals then var_is_optional var v else Ok false) ;;
+          if skip then Ok []
+          else w <- encode_primitive c u (v_format var) v ;; Ok [WAttr (v_qname var) w]
+    end
+  else
+    (* getattr(obj, var.name, EMPTY_MAP).items() *)
+    match obj with
+    | VObj _ fs =>
+        match assoc (v_name var) fs with
+        | None => Ok []
+        | Some (VMap m) => Ok (map (fun kv => WAttr (fst kv) (WP (PStr (snd kv)))) m)
+        | Some _ => Err EAttribute
+        end
+    | _ => Ok []
+    end.
+
 Definition next_attribute (c : conv) (u : universe) (obj : value) (meta : xmeta) (nillable : bool)
            (xsi : option qname) (ignore_optionals : bool) : gres (list wevent) :=
-  attrs <- concatM (fun var =>
-      if v_is KAttribute var then
-        v <- getattr obj (v_name var) ;;
-        match v with
-        | VNone => Ok []
-        | _ =>
-            if is_array v && negb (py_truthy v) then Ok []
-            else
-              skip <- (if ignore_optionals then var_is_optional var v else Ok false) ;;
-              if skip then Ok []
-              else w <- encode_primitive c u (v_format var) v ;; Ok [WAttr (v_qname var) w]
-        end
-      else
-        (* getattr(obj, var.name, EMPTY_MAP).items() *)
-        match obj with
-        | VObj _ fs =>
-            match assoc (v_name var) fs with
-            | None => Ok []
-            | Some (VMap m) => Ok (map (fun kv => WAttr (fst kv) (WP (PStr (snd kv)))) m)
-            | Some _ => Err EAttribute
-            end
-        | _ => Ok []
-        end) (get_attribute_vars meta) ;;
+  attrs <- concatM (attr_step c u obj ignore_optionals) (get_attribute_vars meta) ;;
   Ok (attrs
       ++ (match xsi with Some ((_ :: _) as q) => [ev_type q] | _ => [] end)
       ++ (if nillable then [ev_nil] else [])).
